@@ -54,6 +54,31 @@ pub fn linked_vs_contiguous<LP: LProto, P: Proto, const SHAPE: u8>() {
     core::mem::forget(lb);
 }
 
+/// Same with CONCRETE field ids (cheap): out-of-order and far-apart id patterns exercise the
+/// compact writer's long-form/short-form state without symbolic header lengths.
+#[cfg(kani)]
+pub fn linked_vs_contiguous_ids<LP: LProto, P: Proto, const SHAPE: u8, const PREV: i16, const ID: i16, const AFTER: i16>() {
+    let l = Leaves::any();
+    let zc: bool = kani::any();
+    let mut a = BytesMut::with_capacity(96);
+    {
+        let mut w = P::writer(&mut a);
+        write_seq(&mut w, SHAPE, PREV, ID, AFTER, &l);
+        P::finish(w);
+    }
+    let mut lb = LinkedBytes::with_capacity(96);
+    {
+        let mut w = LP::writer(&mut lb, zc);
+        write_seq(&mut w, SHAPE, PREV, ID, AFTER, &l);
+        LP::finish(w);
+    }
+    let o = concat::<96>(&lb);
+    kani::assert(o.eq_bytes(&a[..]), "C01: LinkedBytes writer emits the same bytes as the BytesMut writer");
+    kani::cover!(true, "reached end");
+    core::mem::forget(a);
+    core::mem::forget(lb);
+}
+
 /// zero-copy branch: 4096-byte binary with zero_copy on is attached as a node, not copied
 #[cfg(kani)]
 pub fn linked_zero_copy<LP: LProto>() {
